@@ -6,6 +6,9 @@ From PowHsm Require Import Model.LedgerProtocol.
 From PowHsm Require Import Model.Server.
 From PowHsm Require Import Proofs.TraceLogic.
 From PowHsm Require Import Proofs.C11.
+From PowHsm Require Import Gen.SrcM.
+From PowHsm Require Import Proofs.SrcEquivDongleM.
+From PowHsm Require Import Proofs.SrcEquivProtoM.
 Open Scope N_scope.
 
 (* closed check on the generated except-ladders: every v5 handler maps a link error to (flag set, device error) and a timeout to (flag untouched, device error) *)
@@ -176,5 +179,33 @@ Theorem C11_flag_set_iff_link_error_handlers :
              fst (ensure_connection kind w) = Ok tt /\
              fst (rest (snd (ensure_connection kind w))) = Exn DongleComm)).
 Proof. exact (@flag_set_iff_link_error_handlers). Qed.
+
+(* TIE BY TRANSLATION (device monad): ensure_connection of ledger/protocol.py, as regenerated from the Python source text, runs on every world as the model's: nothing when no link error is pending; otherwise close, the bring-up (a parameter equal to the model's), the flag cleared only after it succeeded, a protocol error turned into a link error (so that the repair is retried) *)
+Theorem C11_source_ensure_connection_is_model :
+  forall (kind : dongle_kind) (init : pm pv) (self : pv) (w : world),
+         init_ok kind init ->
+         srcm_HSM2ProtocolLedger__ensure_connection init self w =
+         mres (fun _ : unit => VNone) (ensure_connection kind w).
+Proof. exact (@srcm_ensure_connection_ok). Qed.
+
+(* _get_pubkey of the source, as translated (repair first, then the exchange, then the except ladder in source order with the reconnection flag set on a link error), is the model's handler with its generated ladder on every world *)
+Theorem C11_source_get_pubkey_handler_is_model :
+  forall (kind : dongle_kind) (init : pm pv) (cm : string -> pv -> list pv -> pr pv)
+           (self : pv) (req : obj) (x : str) (els : list N) (w : world),
+         init_ok kind init ->
+         jget (s "keyId") req = Some (JStr x) ->
+         bip32_path x = Some els ->
+         cm "to_binary" (SrcEquivBase.path_obj els) [] = POk (VBytes (path_to_binary els)) ->
+         srcm_HSM2ProtocolLedger___get_pubkey cm init self (request_with_path req els) w =
+         mres rtuple_pv (op_get_pubkey kind V5 req w).
+Proof. exact (@srcm_get_pubkey_ok). Qed.
+
+(* _reset_advance_blockchain likewise *)
+Theorem C11_source_reset_advance_handler_is_model :
+  forall (kind : dongle_kind) (init : pm pv) (self request : pv) (req : obj) (w : world),
+         init_ok kind init ->
+         srcm_HSM2ProtocolLedger___reset_advance_blockchain init self request w =
+         mres rtuple_pv (op_reset_advance kind req w).
+Proof. exact (@srcm_reset_advance_blockchain_ok). Qed.
 
 Example C11_nonvacuous : True. Proof. exact I. Qed. (* concrete three-request lifetimes closed by vm_compute in Proofs/C11.v, Module Examples *)
